@@ -11,7 +11,7 @@
 (* file env: logged operands must equal the registers they were read from  *)
 (* (data-flow binding), and the law named by the program is judged at end. *)
 (***************************************************************************)
-EXTENDS FxJudge, Json, IOUtils, TLC
+EXTENDS FxJudgeT, Json, IOUtils, TLC
 
 TraceFile == IOEnv.FX_TRACE
 OutFile   == IOEnv.FX_OUT
@@ -60,16 +60,16 @@ TraceCfg ==
 TraceCall ==
    /\ IsKind("call")
    /\ LET j == Line
-          e == Event(j)
+          e == EventT(j)
           inprog == "d" \in DOMAIN j
           bound == ~inprog \/ \A i \in DOMAIN j.s : j.s[i] = 0 \/ env[j.s[i]] = e.a[i]     \* data-flow binding
-          v == Judge(Prop, prev, e)
+          v == JudgeAll(Prop, prev, e)
           fid == Fidelity(e)
       IN /\ l' = l + 1
          /\ prev' = e
          /\ IF ~bound
             THEN st' = [st EXCEPT !.malformed = Listed(@, l)] /\ UNCHANGED <<env, hist>>
-            ELSE /\ st' = [Account(st, v, Relevant(Prop, prev, e), fid) EXCEPT !.calls = @ + 1]
+            ELSE /\ st' = [Account(st, v, RelAll(Prop, prev, e), fid) EXCEPT !.calls = @ + 1]
                  /\ IF inprog
                     THEN /\ env' = IF j.d > 0 THEN [env EXCEPT ![j.d] = e.o] ELSE env
                          /\ hist' = Append(hist, <<e.op, j.d, j.s>>)
